@@ -1,6 +1,6 @@
 (* C10/Run.v — evaluation of the model and of the specification on harness cases. *)
 From Coq Require Import String.
-From Relic Require Import Base.Prelude Base.Val Generated.C10_gen C10.ChainIR C10.Model C10.Chain.
+From Relic Require Import Base.Prelude Base.Val Generated.C10_gen C10.ChainIR C10.Model C10.Chain C10.Timing.
 
 (* the digest used for evaluation: algorithm tag followed by the data (injective; see Properties.hsym_injective) *)
 Definition HR := Hsym.
@@ -98,10 +98,50 @@ Definition run_seq (v : val) : val :=
              VL [VZ (res_kind r); VZ (res_code_u r); VZ (res_kind (fresh c)); VZ (res_code_u (fresh c)); of_bool (spec_chain_accept c)])
           (combine out calls)).
 
-(* entry point: [0 client] [1 sign] [2 verify] [3 verification history] *)
+(* ---- the timed client.
+   [ct_seconds ctx_ms(-1 = none) wait_ms legacy [authority ...]] ; authority = [tls [[delay_ms code n] ...] reply-attributes]
+   event codes: 0 refused, 1 connected, 2 TLS done, 3 headers, 4 n body bytes, 5 body complete, 6 aborted by the authority
+   -> [kind code hits t_end_ms spec_kind spec_id spec_hits per-authority limits]
+      kind 0 ok / 1 err / 2 panic / 3 never returns ; hits = [[index t_ms] ...] ; per authority [in_time good] ;
+      limits = [total dial tls header] in ms as read from the source for this ct *)
+Definition MS := 1000000.
+Definition mk_ev (v : val) : Z * ev :=
+  let c := vz (vnth 1 v) in
+  (vz (vnth 0 v) * MS,
+   if c =? 0 then EvRefused else if c =? 1 then EvConnected else if c =? 2 then EvSecure else if c =? 3 then EvHeaders
+   else if c =? 4 then EvBytes (vz (vnth 2 v)) else if c =? 5 then EvEnd else EvAbort).
+Fixpoint mk_auths (legacy : bool) (id : Z) (l : list val) : list authority :=
+  match l with
+  | [] => []
+  | v :: r => mkAuth (vbool (vnth 0 v)) (map mk_ev (vl (vnth 1 v))) (mk_reply legacy id (vnth 2 v)) :: mk_auths legacy (id + 1) r
+  end.
+Definition to_ms (t : Z) : Z := t / MS.
+Definition run_timed (v : val) : val :=
+  let ct := vz (vnth 0 v) in
+  let ctxms := vz (vnth 1 v) in
+  let ctx := if ctxms <? 0 then None else Some (ctxms * MS) in
+  let wait := vz (vnth 2 v) * MS in
+  let legacy := vbool (vnth 3 v) in
+  let al := mk_auths legacy 0 (vl (vnth 4 v)) in
+  let q := mkReq the_sig the_alg the_nonce legacy in
+  let l := limits_of ct in
+  let '(res, hits) := limited_client HR l ctx q al wait in
+  let good := if legacy then (fun a => spec_in_time l (a_tls a) (a_script a) && genuine_legacy q (deliver (a_reply a)))
+              else spec_good_full HR l q in
+  let '(sp, sh) := spec_timed good al 0 in
+  let kind := match res with TRet r _ => res_kind r | THang => 3 end in
+  let code := match res with TRet r _ => res_code r | THang => 0 end in
+  let tend := match res with TRet _ t => to_ms t | THang => -1 end in
+  VL [VZ kind; VZ code; VL (map (fun h : Z * Z => VZs [fst h; to_ms (snd h)]) hits); VZ tend;
+      VZ (opt_kind sp); VZ (opt_id sp); VZs sh;
+      VL (map (fun a => VL [of_bool (spec_in_time l (a_tls a) (a_script a)); of_bool (good a)]) al);
+      VZs [to_ms (l_total l); to_ms (l_dial l); to_ms (l_tls l); to_ms (l_header l)]].
+
+(* entry point: [0 client] [1 sign] [2 verify] [3 verification history] [4 timed client] *)
 Definition run (v : val) : val :=
   let k := vz (vnth 0 v) in
   if k =? 0 then run_client (vnth 1 v)
   else if k =? 1 then run_sign (vnth 1 v)
   else if k =? 2 then run_verify (vnth 1 v)
-  else run_seq (vnth 1 v).
+  else if k =? 3 then run_seq (vnth 1 v)
+  else run_timed (vnth 1 v).
